@@ -148,4 +148,9 @@ SUBCHECKS = [
     SubCheck("zone_boundaries", check_position, enumerate=enumerate_zone_boundaries, nontrivial=_nt, classes=T.tm_classes,
              shards_quick=4, shards_thorough=8, exhaustive="both",
              rule="automatic zoning at every zone boundary (UTM, ISG, three custom projections) and within a few ulps / 1e-12 / 1e-9 deg of it"),
+    SubCheck("axis_sweeps", check_position, enumerate=T.geo_sweeps(40000, 640000), nontrivial=_nt, classes=T.tm_classes,
+             shards_quick=8, shards_thorough=16,
+             rule="stratified sweeps: two meridians walked through the latitude band and two parallels through the longitudes (automatic "
+                  "zones / offsets of -30..30 deg from an explicit zone's meridian) on a lattice of 40 000 (quick; 455 m of latitude) or "
+                  "640 000 points per line, lines fixed by the seed: any latitude / longitude slab wider than the spacing is crossed"),
 ]
